@@ -41,6 +41,25 @@ class Ob:
     bounds: str = ""
     engine: str = "crosshair"  # crosshair | z3
     per_path: typ.Optional[int] = None
+    source: typ.Optional[str] = None  # generated wrapper module (exact signature + bounds); written to .work/ and used as module
+
+
+WORK = HERE / ".work"
+
+
+def materialise(ob: "Ob") -> pathlib.Path:
+    """harness file of an obligation; generated wrappers are (re)written on every run"""
+    if ob.source is None:
+        return HARNESS / ob.module
+    h = hashlib.sha1(ob.source.encode()).hexdigest()[:12]
+    d = WORK / "gen"
+    d.mkdir(parents=True, exist_ok=True)
+    p = d / f"{pathlib.Path(ob.module).stem}_{h}.py"
+    if not p.exists() or p.read_text() != ob.source:
+        tmp = p.with_suffix(f".tmp{os.getpid()}")
+        tmp.write_text(ob.source)
+        tmp.replace(p)
+    return p
 
 
 @dataclasses.dataclass
@@ -69,6 +88,7 @@ def child_env(params: dict) -> dict:
     pp = [str(HERE)]
     if os.environ.get("VP_REPO"):
         pp.insert(0, str(REPO / "src"))
+    pp.append(str(HARNESS))
     env["PYTHONPATH"] = os.pathsep.join(pp)
     env["PYTHONDONTWRITEBYTECODE"] = "1"
     env["PYTHONHASHSEED"] = "0"
@@ -80,7 +100,7 @@ _CE_RE = re.compile(r"^(?P<file>[^:]+):(?P<line>\d+): error: (?P<msg>.*) when ca
 
 
 def run_crosshair(ob: Ob) -> Res:
-    path = HARNESS / ob.module
+    path = materialise(ob)
     t0 = time.time()
     try:
         line = func_line(path, ob.func)
@@ -108,6 +128,8 @@ def run_crosshair(ob: Ob) -> Res:
         if "Confirmed over all paths" in ln:
             return Res(ob, "confirmed", "", wall=wall)
     for ln in lines:
+        if "Unable to meet precondition" in ln and "raised" in ln:
+            return Res(ob, "error", ln.split(": ", 2)[-1], wall=wall)
         if "Not confirmed" in ln or "Unable to meet precondition" in ln:
             return Res(ob, "inconclusive", ln.split(": ", 2)[-1], wall=wall)
     if proc.returncode not in (0, 1) or "Traceback" in out or ": error:" in out:
@@ -118,7 +140,7 @@ def run_crosshair(ob: Ob) -> Res:
 def run_z3(ob: Ob) -> Res:
     """Harness script prints one JSON line {"verdict": unsat|sat|unknown, "model": "...call expr..."}.
     unsat == property holds for all values in the bound (== confirmed)."""
-    path = HARNESS / ob.module
+    path = materialise(ob)
     t0 = time.time()
     cmd = [str(VENV_BIN / "python"), str(path), ob.func, str(ob.timeout)]
     try:
@@ -144,7 +166,7 @@ def replay(ob: Ob, call: str) -> typ.Tuple[bool, str]:
     """Re-executes the counterexample on plain CPython (no CrossHair in the loop)."""
     env = child_env(ob.params)
     env["VP_REPLAY"] = "1"
-    cmd = [str(VENV_BIN / "python"), "-m", "vp.replay", str(HARNESS / ob.module), ob.func, call]
+    cmd = [str(VENV_BIN / "python"), "-m", "vp.replay", str(materialise(ob)), ob.func, call]
     try:
         proc = subprocess.run(cmd, env=env, capture_output=True, text=True, timeout=300, cwd=str(HERE))
     except subprocess.TimeoutExpired:
@@ -167,7 +189,9 @@ def write_replay_file(pid: str, ob: Ob, call: str) -> str:
         + (f"sys.path.insert(0, {str(REPO / 'src')!r})\n" if os.environ.get("VP_REPO") else "")
         +
         "from vp.replay import replay_call\n"
-        f"sys.exit(replay_call({str(HARNESS / ob.module)!r}, {ob.func!r}, {call!r}))\n"
+        + (f"SRC = {ob.source!r}\nimport pathlib\np = pathlib.Path({str(materialise(ob))!r})\n"
+           "p.parent.mkdir(parents=True, exist_ok=True)\np.write_text(SRC)\n" if ob.source else "")
+        + f"sys.exit(replay_call({str(materialise(ob))!r}, {ob.func!r}, {call!r}))\n"
     )
     return str(p)
 
@@ -234,7 +258,7 @@ def run_check(pid: str, tier: str) -> int:
     samples = []
     for r in results:
         ob = r.ob
-        entry = {"obligation": ob.name, "harness": f"harness/{ob.module}:{ob.func}", "params": ob.params,
+        entry = {"obligation": ob.name, "harness": f"harness/{ob.module}:{ob.func}" + (" (generated wrapper)" if ob.source else ""), "params": ob.params,
                  "bounds": ob.bounds, "expect": ob.expect, "verdict": r.verdict, "solver_wall_s": round(r.wall, 1)}
         if r.call:
             entry["counterexample"] = r.call
